@@ -32,7 +32,9 @@ Positions == {"select-item", "select-two", "operand-arith", "operand-func", "ope
               "operand-count-distinct", "operand-sum-distinct", "operand-window",
               \* every argument slot of functions with their own rendering: CONCAT (3 args), SUBSTRING, CAST, MIN / AVG / LOWER / LENGTH
               "operand-concat-first", "operand-concat-last", "operand-substring", "operand-cast", "operand-min", "operand-avg", "operand-lower", "operand-length",
-              "operand-window-partition", "operand-window-order", "operand-in-item", "operand-between-bound", "operand-isnull", "operand-neg", "operand-not"}
+              "operand-window-partition", "operand-window-order", "operand-in-item", "operand-between-bound", "operand-isnull", "operand-neg", "operand-not",
+              \* the aliased term IS the whole condition of WHERE / HAVING / JOIN ON (not an operand of one)
+              "where-whole", "having-whole", "join-on-whole"}
 
 Sel(ts) == [m |-> "select", terms |-> ts]
 Outer(t) == WithAl(t, "alx")
@@ -51,6 +53,9 @@ Program(t, p) ==
       [] p = "where-right" -> <<from, plain, [m |-> "where", crit |-> Cmp(Fld("T1", "c"), t)]>>
       [] p = "having-right" -> <<from, plain, [m |-> "having", crit |-> Cmp(Fld("T1", "c"), t)]>>
       [] p = "operand-func-second" -> <<from, Sel(<<Outer([k |-> "call", f |-> "COALESCE", args |-> <<Fld("T1", "c"), t>>])>>)>>
+      [] p = "where-whole" -> <<from, plain, [m |-> "where", crit |-> t]>>
+      [] p = "having-whole" -> <<from, plain, [m |-> "having", crit |-> t]>>
+      [] p = "join-on-whole" -> <<from, [m |-> "join", item |-> "T2", how |-> "", kind |-> "on", crit |-> t, cols |-> <<>>], plain>>
       [] p = "where" -> <<from, plain, [m |-> "where", crit |-> Cmp(t, Num("1"))]>>
       [] p = "having" -> <<from, plain, [m |-> "having", crit |-> Cmp(t, Num("1"))]>>
       [] p = "groupby" -> <<from, plain, [m |-> "groupby", terms |-> <<t>>]>>
